@@ -170,6 +170,9 @@ class Ref:
         return seg
 
     def step(self, cur, seg):
+        if cur is DEFAULT:
+            # TALES does not say what lies below `default`; simpleTAL's marker is a string
+            raise OutOfScope("traversal into the default marker")
         if isinstance(cur, RepeatState):
             return cur.lookup(seg)
         if is_callable(cur):
@@ -279,7 +282,7 @@ class Ref:
         if v is None:
             return ""
         if v is DEFAULT:
-            v = DEFAULT_TEXT
+            raise OutOfScope("default marker substituted into a string expression")
         return to_text(v)
 
     def e_python(self, expr):
